@@ -31,6 +31,37 @@ def flagsJson (f : Flags) : Json :=
   jobj [("saveLib", jbool f.saveLib), ("saveBase", jbool f.saveBase), ("saveMerged", jbool f.saveMerged),
         ("stripInLib", jbool f.stripInLib)]
 
+def terr : TErr → String
+  | .noName => "noName" | .crash => "crash" | .unresolvedParent => "unresolvedParent"
+  | .needsPartner => "needsPartner"
+
+def rowJson (r : TsvRow) : Json :=
+  jarr [jstr r.hedId, jnat r.level, jstr r.name, jstr r.parent, jstr r.attrs, jstr r.desc]
+
+def rowOf (j : Json) : Except String TsvRow := do
+  match ← asArr j with
+  | [h, l, n, p, a, d] => pure ⟨← asStr h, ← asNat l, ← asStr n, ← asStr p, ← asStr a, ← asStr d⟩
+  | _ => .error "row must be [hedId, level, name, parent, attrs, desc]"
+
+mutual
+def xnodeJson : XNode → Json
+  | .node n d as ch => jarr [jstr n, jopt jstr d, attrsJson as, jarr (xforestJson ch)]
+def xforestJson : List XNode → List Json
+  | [] => []
+  | x :: xs => xnodeJson x :: xforestJson xs
+end
+
+partial def xnodeOf (j : Json) : Except String XNode := do
+  match ← asArr j with
+  | [n, d, as, ch] =>
+    let desc := match d with | Json.str s => some s.toList | _ => none
+    pure (.node (← asStr n) desc (← attrsOf as) (← (← asArr ch).mapM xnodeOf))
+  | _ => .error "node must be [name, desc, attrs, children]"
+
+def entriesResult {ε} (f : ε → String) : Except ε (List Entry) → Json
+  | .ok es => jarr (es.map entryJson)
+  | .error e => Json.str (f e)
+
 /-- requests `{"op":"c05.<name>", ...}` of property C05 -/
 def handle (op : String) (j : Json) : Option (Except String Json) :=
   match op with
@@ -105,9 +136,51 @@ def handle (op : String) (j : Json) : Option (Except String Json) :=
           jobj [("sections", jarr (secs.map fun s =>
                   let out := outputSection f s
                   jobj [("entries", jarr (out.map entryJson)), ("lines", jarr (out.map fun e => line 1 e true))])),
+                ("wf", jbool ((secs.all fun s => (outputSection f s).all (secWF 1)) &&
+                  (outputUnits f ucs).all fun t => (!t.2.1 || secWF 1 t.1) && t.2.2.all (secWF 2))),
                 ("unitClasses", jarr ((outputUnits f ucs).map fun t =>
                   jobj [("entry", entryJson t.1), ("props", jbool t.2.1), ("units", jarr (t.2.2.map entryJson)),
                         ("lines", jarr (line 1 t.1 t.2.1 :: t.2.2.map fun u => line 2 u true))]))])
+  | "c05.tsv" => some do
+      let es ← (← getArr j "entries").mapM entryOf
+      let lib ← getStr j "library"
+      let ws ← getStr j "withStandard"
+      let merged ← getBool j "merged"
+      pure (match saveTags lib ws merged es with
+        | .error _ => jobj [("refuse", jbool true)]
+        | .ok out =>
+          let rows := toTsvRows out
+          jobj [("rows", jarr (rows.map rowJson)),
+                ("reread", entriesResult terr (ofTsvRows rows)),
+                ("wf", jbool (out.all fun p => tsvWF p.2)),
+                ("resolvable", jbool (TsvResolvable [(hedTag, [])] (out.map (·.2))))])
+  | "c05.readtsv" => some do
+      let rows ← (← getArr j "rows").mapM rowOf
+      pure (jobj [("entries", entriesResult terr (ofTsvRows rows))])
+  | "c05.xml" => some do
+      let es ← (← getArr j "entries").mapM entryOf
+      let lib ← getStr j "library"
+      let ws ← getStr j "withStandard"
+      let merged ← getBool j "merged"
+      pure (match saveTags lib ws merged es with
+        | .error _ => jobj [("refuse", jbool true)]
+        | .ok out =>
+          match toXmlTree out with
+          | none => jobj [("tree", Json.null)]
+          | some F =>
+            jobj [("tree", jarr (xforestJson F)), ("reread", jarr ((ofXmlTree F).map entryJson)),
+                  ("wf", jbool (out.all fun p => xmlWF p.2))])
+  | "c05.readxml" => some do
+      let F ← (← getArr j "tree").mapM xnodeOf
+      pure (jobj [("entries", jarr ((ofXmlTree F).map entryJson))])
+  | "c05.readsection" => some do
+      let lines ← (← getArr j "lines").mapM asStr
+      pure (if getBoolD j "units" false then
+        match ofWikiUnits lines with
+        | .ok cls => jobj [("classes", jarr (cls.map fun c =>
+            jobj [("entry", entryJson c.1), ("units", jarr (c.2.map entryJson))]))]
+        | .error e => jobj [("err", Json.str (werr e))]
+      else jobj [("entries", entriesResult werr (ofWikiSection lines))])
   | "c05.escape" => some do
       let s ← getStr j "s"
       pure (jobj [("esc", jstr (escapeNl s)), ("back", jstr (unescapeNl (escapeNl s)))])
